@@ -459,8 +459,13 @@ class Engine:
                     fact = r[0] if isinstance(r, tuple) else r
                     self.oblige(st, f"type invariant of {c.__name__}.{fname} on store", fact, "typeinv", line)
                     break
+        if fname in self.shared_fields and self.shared_fields[fname].get("on_store") and not self._unpublished(st, obj_term):
+            self.shared_fields[fname]["on_store"](self, st, obj_term, fname, val_term)
         st.heap[fname] = z3.Store(st.field_array(fname), a, val_term)
         self.escape(st, val_term)
+
+    def _unpublished(self, st, obj_term):
+        return self._is_local(st, obj_term) and z3.simplify(V.Val.a(obj_term)).as_long() not in st.escaped
 
     def _is_local(self, st, obj_term):
         t = z3.simplify(obj_term)
@@ -849,6 +854,24 @@ class Engine:
             raise Unsupported(f"call depth exceeded at {key}")
         node = cl.node
         if any(isinstance(n, (ast.Yield, ast.YieldFrom)) for n in self._own_nodes(node)):
+            body = [s for s in node.body if not (isinstance(s, ast.Expr) and isinstance(s.value, ast.Constant))]
+            if len(body) == 1 and isinstance(body[0], ast.Expr) and isinstance(body[0].value, ast.YieldFrom):
+                # a generator that only delegates: iterating it is iterating the delegate
+                self.inlined.add(key)
+                fid = next(_frame_ids)
+                st.frames[fid] = Frame({}, cl, cl.parents)
+                for st1, b in self.bind_args(cl, args, kwargs, st, fid):
+                    if isinstance(b, Raise):
+                        yield st1, b
+                        continue
+                    for st2, v in self.eval(body[0].value.value, st1, fid):
+                        if isinstance(v, Raise):
+                            yield st2, v
+                            continue
+                        from . import lib
+
+                        yield st2, lib_to_iter(self, st2, v)
+                return
             raise Unsupported(f"generator function {key} needs a contract")
         self.inlined.add(key)
         fid = next(_frame_ids)
@@ -1217,6 +1240,21 @@ class Engine:
         for t in node.targets:
             if isinstance(t, ast.Name):
                 st.frames[fr].vars.pop(t.id, None)
+            elif isinstance(t, ast.Subscript) and len(node.targets) == 1:
+                for st1, obj in self.eval(t.value, st, fr):
+                    if isinstance(obj, Raise):
+                        yield st1, ("raise", obj.exc)
+                        continue
+                    for st2, idx in self.eval(t.slice, st1, fr):
+                        if isinstance(idx, Raise):
+                            yield st2, ("raise", idx.exc)
+                            continue
+                        m = self.lookup_method(obj.hint, "__delitem__") if isinstance(obj, SV) and obj.hint else None
+                        if m is None:
+                            raise Unsupported("del x[i] on unsupported object")
+                        for st3, r in self.call(BoundMethod(obj, m), [idx], {}, st2, node.lineno):
+                            yield st3, (("raise", r.exc) if isinstance(r, Raise) else None)
+                return
             else:
                 raise Unsupported("del of non-name")
         yield st, None
@@ -1734,3 +1772,13 @@ def _as_load(target):
     t = copy.copy(target)
     t.ctx = ast.Load()
     return t
+
+
+def lib_to_iter(eng, st, v):
+    """Iterable value -> list of items (concrete shape) or SymIter."""
+    from .loops import _as_symiter, _concrete_items
+
+    items = _concrete_items(eng, v, st)
+    if items is not None:
+        return items
+    return _as_symiter(eng, v, st)
